@@ -5,6 +5,7 @@ pair of radices and every offset.  Used by Props/C08, Props/C01, Props/C02.
 -/
 import Poulpy.Lemmas.NormFused
 import Poulpy.Lemmas.NormCross7
+import Poulpy.Lemmas.NormCrossTerm
 
 namespace NormL
 
@@ -76,5 +77,20 @@ theorem bigNormalizeCoef128_value {ab rb rs : Nat} {H : Int} {a : List Int}
   · unfold bigNormalizeCoef128 at h
     rw [if_neg hr] at h
     exact normalizeCrossCoef_value c off h
+
+/-- the dispatch always returns (radices ≥ 1) -/
+theorem normalizeCoef_exists (rb rs : Nat) (off : Int) (ab : Nat) (a : List Int) (hab1 : 1 ≤ ab) (hrb1 : 1 ≤ rb) :
+    ∃ out, normalizeCoef rb rs off ab a = some out := by
+  unfold normalizeCoef
+  by_cases hr : rb = ab
+  · rw [if_pos hr]; exact ⟨_, rfl⟩
+  · rw [if_neg hr]; exact normalizeCrossCoef_exists 64 rb rs off ab a hab1 hrb1
+
+theorem bigNormalizeCoef128_exists (rb rs : Nat) (off : Int) (ab : Nat) (a : List Int) (hab1 : 1 ≤ ab) (hrb1 : 1 ≤ rb) :
+    ∃ out, bigNormalizeCoef128 rb rs off ab a = some out := by
+  unfold bigNormalizeCoef128
+  by_cases hr : rb = ab
+  · rw [if_pos hr]; exact ⟨_, rfl⟩
+  · rw [if_neg hr]; exact normalizeCrossCoef_exists 128 rb rs off ab a hab1 hrb1
 
 end NormL
